@@ -13,6 +13,12 @@ import concurrent.futures, json, os, re, shutil, subprocess, sys, tempfile
 HERE = os.path.dirname(os.path.dirname(os.path.abspath(__file__)))
 ENV = dict(os.environ, GOFLAGS="-mod=mod", GOPROXY="off", GOSUMDB="off", GOTOOLCHAIN="local", CGO_ENABLED="0")
 ENV.pop("GOWORK", None)
+# every scratch copy lives at a new path, and the build cache keys on paths: use a throw-away cache so that
+# catalogue runs do not fill the disk (the shared cache once grew to 136 GB this way)
+_OWN_CACHE = None
+if "VERIF_KEEP_GOCACHE" not in os.environ:
+    _OWN_CACHE = tempfile.mkdtemp(prefix="cat-gocache.", dir="/tmp")
+    ENV["GOCACHE"] = _OWN_CACHE
 REPO = os.environ.get("VERIF_REPO", "/repo")
 
 
@@ -266,4 +272,8 @@ def run_checks_on_repo():
 
 
 if __name__ == "__main__":
-    main()
+    try:
+        main()
+    finally:
+        if _OWN_CACHE:
+            shutil.rmtree(_OWN_CACHE, ignore_errors=True)
